@@ -171,8 +171,17 @@ func storeDriver(args []string) error {
 						ev = trace.Ev{"a": "scan", "t": tn, "page": page}
 						rd := st.GetAll(t)
 						pages := []interface{}{}
+						// the caller either hands a fresh page to every Read, or (as the hyper cache
+						// warm-up does) the same page again while keeping the pairs it was given
+						// before; either way what it was given must stay what it was
+						reuse := rng.Intn(2) == 0
+						ev["reuse"] = reuse
+						held := [][]storage.KVPair{}
+						buf := make([]*storage.KVPair, page)
 						for guardN := 0; guardN < 10000; guardN++ {
-							buf := make([]*storage.KVPair, page)
+							if !reuse {
+								buf = make([]*storage.KVPair, page)
+							}
 							n, err := rd.Read(buf)
 							if n == 0 || err != nil {
 								break
@@ -181,6 +190,9 @@ func storeDriver(args []string) error {
 							for i := 0; i < n; i++ {
 								pg = append(pg, *buf[i])
 							}
+							held = append(held, pg)
+						}
+						for _, pg := range held {
 							pages = append(pages, kvList(pg))
 						}
 						rd.Close()
